@@ -527,3 +527,41 @@ twin("C04-T6", "C04", "junction graph built from inlinks", M, "Model._set_exec_o
 mutant("C05-M20", "C05", "R05g", "residual junction built without its duration group", M, "Population.build", 'ResidualJunctionCompartment(pop=self, name=comp_name, duration_group=comps.at[comp_name, "duration group"])', "ResidualJunctionCompartment(pop=self, name=comp_name)")
 mutant("C05-M21", "C05", "R05g", "timed compartment bound to the wrong parameter", M, "Population.build", 'parameter=self.par_lookup[comps.at[comp_name, "duration group"]]', "parameter=self.pars[0]")
 twin("C05-T6", "C05", "duration group cell hoisted into a local", M, "Population.build", 'self.comps.append(JunctionCompartment(pop=self, name=comp_name, duration_group=comps.at[comp_name, "duration group"]))', 'dg = comps.at[comp_name, "duration group"]\n                    self.comps.append(JunctionCompartment(pop=self, name=comp_name, duration_group=dg))')
+
+# ---- algebra / accumulator rules added after the mutation sweep (survivors turned into mutants)
+mutant("C04-M22", "C04", "R04f", "junction outflow multiplied by the total instead of divided", M, "JunctionCompartment.balance", "link.vals[ti] = net_inflow * frac / total_outflow", "link.vals[ti] = net_inflow * frac * total_outflow")
+mutant("C04-M23", "C04", "R04f", "initial flush subtracts from the destination", M, "JunctionCompartment.initial_flush", "link.dest[0] += self.vals[0] * frac", "link.dest[0] -= self.vals[0] * frac")
+mutant("C04-M24", "C04", "R04f", "initial flush divides by the share", M, "JunctionCompartment.initial_flush", "link.dest[0] += self.vals[0] * frac", "link.dest[0] += self.vals[0] / frac")
+mutant("C04-M25", "C04", "R04f", "residual flush divides by the share", M, "ResidualJunctionCompartment.initial_flush", "link.dest[0] += self.vals[0] * frac", "link.dest[0] += self.vals[0] / frac")
+mutant("C04-M26", "C04", "R04f", "residual balance: residual link gets the whole inflow plus the others", M, "ResidualJunctionCompartment.balance", "flow = net_inflow - np.sum(outflow, axis=1)", "flow = net_inflow + np.sum(outflow, axis=1)")
+mutant("C04-M27", "C04", "R04f", "timed junction outflow not divided by the total", M, "JunctionCompartment.balance", "link._vals[:, ti] = net_inflow * frac / total_outflow", "link._vals[:, ti] = net_inflow * frac")
+mutant("C04-M28", "C04", "R04f", "proportions read at the previous index", M, "JunctionCompartment.balance", "outflow_fractions = [link.parameter.vals[ti] for link in self.outlinks]", "outflow_fractions = [link.parameter.vals[ti - 1] for link in self.outlinks]")
+twin("C04-T7", "C04", "share written as inflow * (frac / total)", M, "JunctionCompartment.balance", "link.vals[ti] = net_inflow * frac / total_outflow", "link.vals[ti] = net_inflow * (frac / total_outflow)")
+twin("C04-T8", "C04", "flush product commuted", M, "JunctionCompartment.initial_flush", "link.dest[0] += self.vals[0] * frac", "link.dest[0] += frac * self.vals[0]")
+mutant("C01-M20", "C01", "R01i", "cached outflow starts at one", M, "Compartment.resolve_outflows", "self._cached_outflow = 0", "self._cached_outflow = 1")
+mutant("C01-M21", "C01", "R01i", "timed total outflow subtracts plain links", M, "TimedCompartment.resolve_outflows", "total_outflow[:] += link._cache", "total_outflow[:] -= link._cache")
+mutant("C01-M22", "C01", "R01k", "new link not registered with its parameter", M, "Link.create", "            new_link.parameter.links.append(new_link)", "            pass")
+mutant("C01-M23", "C01", "R01i", "junction inflow starts at one", M, "JunctionCompartment.balance", "net_inflow = 0", "net_inflow = 1")
+mutant("C01-M24", "C01", "R01j", "residual share divided", M, "ResidualJunctionCompartment.balance", "flow = net_inflow * frac", "flow = net_inflow / frac")
+mutant("C02-M20", "C02", "R02f", "negative stock leaves the slot unwritten", M, "Compartment.update", "            self.vals[ti] = 0.0", "            pass")
+mutant("C02-M21", "C02", "R02e", "requested outflow starts at one", M, "Compartment.resolve_outflows", "outflow = 0.0", "outflow = 1.0")
+mutant("C05-M22", "C05", "R05i", "flush adds the outflow already taken", M, "TimedCompartment.resolve_outflows", "self._vals[0, ti] - self._cached_outflow[0]", "self._vals[0, ti] + self._cached_outflow[0]")
+mutant("C05-M23", "C05", "R05h", "compartment duration divided by the timescale", M, "TimedCompartment.preallocate", "self.parameter.vals[0] * self.parameter.timescale", "self.parameter.vals[0] / self.parameter.timescale")
+mutant("C05-M24", "C05", "R05h", "link duration ignores the scale factor", M, "TimedLink.preallocate", "duration = parameter.vals[0] * parameter.timescale * parameter.scale_factor", "duration = parameter.vals[0] * parameter.timescale")
+twin("C05-T7", "C05", "duration product reordered", M, "TimedCompartment.preallocate", "self.parameter.vals[0] * self.parameter.timescale * self.parameter.scale_factor", "self.parameter.timescale * self.parameter.scale_factor * self.parameter.vals[0]")
+twin("C01-T6", "C01", "cache reset written as 0.0", M, "Compartment.resolve_outflows", "self._cached_outflow = 0", "self._cached_outflow = 0.0")
+
+# ---- round 4, second half
+reintro("C06-M31", "C06", "R06b", "fce8126", "databook/scenario values not inserted for precomputed function parameters (NaN inside the suspension window)")
+mutant("C09-M20", "C09", "R09b", "spending overwrite anchored at the start year by linear interpolation", PR, "ProgramInstructions.__init__", "                    self.alloc[prog_name] = sc.dcp(spending)\n", "                    self.alloc[prog_name] = sc.dcp(spending)\n                    self.alloc[prog_name].insert(self.start_year, spending.interpolate(self.start_year)[0])\n")
+twin("C09-T6", "C09", "same anchoring with stepped interpolation", PR, "ProgramInstructions.__init__", "                    self.alloc[prog_name] = sc.dcp(spending)\n", "                    self.alloc[prog_name] = sc.dcp(spending)\n                    self.alloc[prog_name].insert(self.start_year, spending.interpolate(self.start_year, method=\"previous\")[0])\n")
+mutant("C10-M20", "C10", "R10a", "timed compartment restored from its total when the step size differs", PA, "Initialization.apply", "                else:\n                    comp._vals[:, 0] = self.values[(comp.name, pop.name)]", "                elif self.dt is not None and self.dt != comp.dt:\n                    comp[0] = np.sum(self.values[(comp.name, pop.name)])\n                else:\n                    comp._vals[:, 0] = self.values[(comp.name, pop.name)]")
+mutant("C10-M21", "C10", "R10a", "ordinary compartment restored scaled", PA, "Initialization.apply", "comp.vals[0] = self.values[(comp.name, pop.name)]", "comp.vals[0] = self.values[(comp.name, pop.name)] * 1.0000001")
+mutant("C11-M20", "C11", "R11g", "zero spending overwrite dropped by a truth test", PR, "ProgramInstructions.__init__", "elif spending is not None:", "elif spending:")
+mutant("C11-M21", "C11", "R11g", "zero coverage overwrite dropped by a truth test", PR, "ProgramInstructions.__init__", "                if isinstance(vals, TimeSeries):\n                    self.coverage[prog_name] = sc.dcp(vals)\n                else:", "                if isinstance(vals, TimeSeries):\n                    self.coverage[prog_name] = sc.dcp(vals)\n                elif vals:")
+twin("C11-T6", "C11", "presence test written as `not (spending is None)`", PR, "ProgramInstructions.__init__", "elif spending is not None:", "elif not (spending is None):")
+mutant("C14-M20", "C14", "R14f", "per-year bounds table shares one dict", OP, "TotalSpendConstraint.get_hard_constraint", '        hard_constraints["bounds"] = dict()\n', '        hard_constraints["bounds"] = dict.fromkeys(hard_constraints["initial_total_spend"], dict())\n')
+mutant("C14-M21", "C14", "R14f", "per-year bounds dict created once before the loop", OP, "TotalSpendConstraint.get_hard_constraint", '            hard_constraints["bounds"][t] = dict()\n', '            hard_constraints["bounds"].setdefault(t, shared_bounds)\n')
+twin("C14-T6", "C14", "fresh dict written as a literal", OP, "TotalSpendConstraint.get_hard_constraint", '            hard_constraints["bounds"][t] = dict()\n', '            hard_constraints["bounds"][t] = {}\n')
+mutant("C08-M20", "C08", "R08d", "characteristic components collected in a set", M, "Population.build", 'includes = [x.strip() for x in characs.at[charac.name, "components"].split(",")]', 'includes = {x.strip() for x in characs.at[charac.name, "components"].split(",")}')
+twin("C08-T6", "C08", "components de-duplicated in order", M, "Population.build", 'includes = [x.strip() for x in characs.at[charac.name, "components"].split(",")]', 'includes = list(dict.fromkeys(x.strip() for x in characs.at[charac.name, "components"].split(",")))')
